@@ -288,6 +288,19 @@ def run_check(prop, tier, rule_fn, meta):
     )
     with open(evpath, "w") as f:
         json.dump(ev, f, indent=1)
+    code = 1 if new else 0
+    try:
+        _report(prop, tier, judged, discharged, kn, new, rules, known, outdir)
+    except BrokenPipeError:
+        pass
+    try:
+        sys.stdout.flush()
+    except BrokenPipeError:
+        pass
+    os._exit(code) if False else sys.exit(code)
+
+
+def _report(prop, tier, judged, discharged, kn, new, rules, known, outdir):
     print("check %s tier=%s: %d obligations, %d discharged, %d known finding(s), %d new finding(s); rules: %s" %
           (prop, tier, len(judged), len(discharged), len(kn), len(new), ", ".join(rules)))
     for o in kn:
@@ -298,4 +311,3 @@ def run_check(prop, tier, rule_fn, meta):
             json.dump(dict(property=prop, finding=o.to_json(), hint="./check %s --explain %s" % (prop, rp)), f, indent=1)
         print("  %s %s at %s:%s in %s -- %s" % (o.status.upper(), o.key, o.file, o.line, o.fn, o.why))
         print("VIOLATION property=%s replay=%s" % (prop, rp))
-    sys.exit(1 if new else 0)
